@@ -16,7 +16,7 @@ VARIABLE row
 vars == <<row>>
 
 Fuel == 80
-Host == <<<<"t", "log">>>>
+Host == <<<<"t", <<"log">>>>>>
 Inner(j) == <<T(900 + j), Bump("r")>>
 
 Wrap(body) == <<Asg("r", LitI(0)), T(1)>> \o body \o <<T(2), Ret(Ref("r"))>>
